@@ -14,7 +14,7 @@ import (
 var (
 	c18Nums     = []int{0, 1, 2, 3, 10}
 	c18Pres     = []string{"alpha", "alpha.1", "alpha.2", "beta", "beta.2", "beta.11", "rc.1", "0", "1", "x", "alpha-1", "0.3.7", "a.b", "ALPHA"}
-	c18Builds   = []string{"b1", "b2", "001", "exp.sha.5114f85", "x"}
+	c18Builds   = []string{"b1", "b2", "001", "exp.sha.5114f85", "x", "git-5f2c1ab", "build-7", "-", "1-2-3"}
 	c18Loose    = []string{"1", "2", "1.2", "v1", "v1.2", "01.2.3", "1.02.3", "1.2-beta", "1-rc.1", "1.2+b1", "10", "0.1"}
 	c18Invalid  = []string{"", "abc", "1.2.3.4", "1..2", "-1.0.0", "1.2.3-", "1.2.3+", "V1.2.3", " 1.2.3", "1.2.3 ", "1.2.3-01", "1.2.3-α", "latest", "1,2,3", "1.2.3-a..b", ">=1.0.0", "1.x", "*", "1.2.3+b1+b2", "1.2.3-rc_1", "v", "1.2.3\n"}
 	c18Ops      = []string{"", "=", "!=", ">", "<", ">=", "<=", "~", "^", "=>", "=<", "~>"}
